@@ -212,6 +212,22 @@ def run(rep, tier):
             rep.bad("C14.R4", rs, loc_of(ev), "finished-flag", "callback_finished_executing_ must be stored true with >=release after "
                     "execute() whenever the callback object still exists (value %s, order %s, after execute: %s, extra conditions: %s)"
                     % (T(ev["args"][0]), mo, after, sorted(extra)))
+    # the 'removed itself' flag that suppresses the publication belongs to one callback: it is (re)initialised to false
+    # between two execute() calls, before its address is handed to the callback
+    hand = [(b, i, ev) for b, i, ev in rs.all_events() if ev.get("k") == "write" and P(ev["lhs"]).endswith("->is_removed_") and
+            T(strip(ev.get("rhs"))).startswith("&")]
+    if not hand:
+        raise AnalysisBroken("request_stop: hand-over of the is_removed flag not found")
+    for b, i, ev in hand:
+        var = T(strip(ev["rhs"]))[1:]
+        fresh = lambda e, var=var: (e.get("k") == "decl" and e.get("var") == var and e.get("init") is not None and T(strip(e["init"])) == "false") or \
+            (e.get("k") == "write" and P(e["lhs"]) == var and T(strip(e.get("rhs"))) == "false")
+        if precedes_on_all_paths(rs, fresh, (b, i), reset_pred=lambda e: e.get("k") == "call" and callee_of(e) == EXEC):
+            rep.ok("C14.R4", rs, "the per-callback flag '%s' is reset to false before every execute()" % var)
+        else:
+            rep.bad("C14.R4", rs, loc_of(ev), "removed-flag-stale", "the flag '%s' handed to the callback is not reset to false between two execute() calls: after one "
+                    "callback removed itself, the finished flag of every later callback is never published and its destructor on "
+                    "another thread waits forever" % var)
     # lock_if_not_stopped: immediate execution only when stop was seen; followed by finished flag + return false
     li = get(SS + "::lock_if_not_stopped")
     ff = FactFlow(li)
